@@ -33,6 +33,7 @@ type globPat struct {
 	Exp2    [][][]string `json:"exp2"`
 	ExpStr2 [][]string   `json:"expstr2"`
 	// expected fields of the pattern written as a word: the matches, or the word itself (quotes removed) when nothing matches
+	WText []string    `json:"wtext"`
 	ExpW  [][]string  `json:"expw"`
 	ExpW2 [][]string  `json:"expw2"`
 	Obs   *globPatObs `json:"obs,omitempty"`
@@ -52,6 +53,9 @@ type globPatObs struct {
 	XDots   int          `json:"xdots"`   // ... fields with a "." or ".." component
 	XErr    string       `json:"xerr"`
 	XSorted bool         `json:"xsorted"`
+	XV      [][]string   `json:"xv"` // $v with the pattern text as the value of v (patterns without a backslash)
+	XQ      [][]string   `json:"xq"` // "$v"
+	NoBS    bool         `json:"nobs"`
 	Panic   string       `json:"panic"`
 }
 
@@ -137,7 +141,7 @@ func runGlobPat(p globPat) (o *globPatObs) {
 		o.Strs = append(o.Strs, str)
 	}
 	// the same pattern as a word: escaped characters become backslash quotations
-	o.XW = [][]string{}
+	o.XW, o.XV, o.XQ = [][]string{}, [][]string{}, [][]string{}
 	o.XSorted = true
 	if !p.Abs && p.Rep != 2 {
 		var w ast.Word
@@ -177,6 +181,34 @@ func runGlobPat(p globPat) (o *globPatObs) {
 				continue
 			}
 			o.XW = append(o.XW, toSymbols(f))
+		}
+		// the pattern as the value of a variable: active when the expansion is unquoted, literal inside double quotes
+		o.NoBS = !strings.Contains(o.Text, "\\")
+		if o.NoBS {
+			env.Set("v", o.Text)
+			pe := &ast.ParamExp{Name: &ast.Lit{Value: "v"}}
+			if fs, err := env.Expand(ast.Word{pe}, 0); err == nil {
+				for _, f := range fs {
+					dot := false
+					for _, n := range strings.Split(strings.TrimRight(f, "/"), "/") {
+						if n == "." || n == ".." {
+							dot = true
+						}
+					}
+					if !dot {
+						o.XV = append(o.XV, toSymbols(f))
+					}
+				}
+			} else {
+				o.XErr = err.Error()
+			}
+			if fs, err := env.Expand(ast.Word{&ast.Quote{Tok: `"`, Value: ast.Word{pe}}}, 0); err == nil {
+				for _, f := range fs {
+					o.XQ = append(o.XQ, toSymbols(f))
+				}
+			} else {
+				o.XErr = err.Error()
+			}
 		}
 	}
 	return
